@@ -173,19 +173,29 @@ def op_sccs_history(job):
     g = None
     kept = []
     out = []
+    # argstyle 'scratch': the caller hands over ONE set object of its own that it
+    # clears and refills for every call (the graph must not keep or edit it)
+    scratch = set() if job.get('argstyle') == 'scratch' and mode == 'hashable' else None
+
+    def arg(items):
+        if scratch is None:
+            return iter(items)
+        scratch.clear()
+        scratch.update(items)
+        return scratch
     for s in job['steps']:
         o = {'raised': ''}
         try:
             if s['op'] == 'ctor':
-                g = DiGraph(iter([obj[l] for l in s['nodes']]), **kw)
+                g = DiGraph(arg([obj[l] for l in s['nodes']]), **kw)
                 out.append(o)
                 continue
             if g is None:
                 g = DiGraph(**kw)
             if s['op'] == 'add_nodes':
-                g.add_nodes(iter([obj[l] for l in s['nodes']]))
+                g.add_nodes(arg([obj[l] for l in s['nodes']]))
             elif s['op'] == 'add_neighbors':
-                g.add_neighbors(obj[s['node']], iter([obj[l] for l in s['nbs']]))
+                g.add_neighbors(obj[s['node']], arg([obj[l] for l in s['nbs']]))
             else:
                 o['obs'] = []
                 o['exhausted'] = False
